@@ -21,6 +21,184 @@ use vh::gen::{atom_json, rand_atom_bytes, rand_tree, BOUNDARY_ATOMS};
 use vh::*;
 
 // ---------------------------------------------------------------------------
+// counting allocator (C16 "without over-allocating"): every decoder call is bracketed by
+// `measure`, which reports the largest single allocation request and the peak of additional
+// live bytes.  While a call is measured, a request above MEM_CAP (1 GiB) is refused: the
+// allocator writes "OVERALLOC <function> <bytes>" to stderr and returns null, which ends the
+// process - inputs that could provoke that are run in a child process (`guarded`).
+
+use std::alloc::{GlobalAlloc, Layout, System};
+use std::sync::atomic::{AtomicUsize, Ordering::Relaxed};
+
+static LIVE: AtomicUsize = AtomicUsize::new(0);
+static PEAK: AtomicUsize = AtomicUsize::new(0);
+static MAXREQ: AtomicUsize = AtomicUsize::new(0);
+static CAP: AtomicUsize = AtomicUsize::new(usize::MAX);
+static CUR_FN: AtomicUsize = AtomicUsize::new(0);
+const MEM_CAP: usize = 1 << 30;
+const FN_NAMES: &[&str] = &[
+    "none", "node_from_stream", "node_from_bytes", "parse_triples", "tree_hash_from_stream",
+    "is_canonical_serialization", "serialized_length_from_bytes_trusted", "serialized_length_from_bytes",
+];
+
+struct Counting;
+
+fn refuse(size: usize) {
+    // no allocation here: format into a stack buffer, write to fd 2
+    use std::io::Write;
+    use std::os::fd::FromRawFd;
+    let mut buf = [0u8; 96];
+    let mut n = 0;
+    let name = FN_NAMES[CUR_FN.load(Relaxed).min(FN_NAMES.len() - 1)];
+    for x in b"OVERALLOC ".iter().chain(name.as_bytes()).chain(b" ") {
+        buf[n] = *x;
+        n += 1;
+    }
+    let mut digits = [0u8; 24];
+    let mut k = 0;
+    let mut v = size;
+    loop {
+        digits[k] = b'0' + (v % 10) as u8;
+        k += 1;
+        v /= 10;
+        if v == 0 {
+            break;
+        }
+    }
+    while k > 0 {
+        k -= 1;
+        buf[n] = digits[k];
+        n += 1;
+    }
+    buf[n] = b'\n';
+    n += 1;
+    let mut f = std::mem::ManuallyDrop::new(unsafe { std::fs::File::from_raw_fd(2) });
+    let _ = f.write_all(&buf[..n]);
+}
+
+fn note_alloc(size: usize) -> bool {
+    if size > CAP.load(Relaxed) {
+        MAXREQ.fetch_max(size, Relaxed);
+        refuse(size);
+        return false;
+    }
+    MAXREQ.fetch_max(size, Relaxed);
+    let live = LIVE.fetch_add(size, Relaxed) + size;
+    PEAK.fetch_max(live, Relaxed);
+    true
+}
+
+unsafe impl GlobalAlloc for Counting {
+    unsafe fn alloc(&self, l: Layout) -> *mut u8 {
+        if !note_alloc(l.size()) {
+            return std::ptr::null_mut();
+        }
+        unsafe { System.alloc(l) }
+    }
+    unsafe fn alloc_zeroed(&self, l: Layout) -> *mut u8 {
+        if !note_alloc(l.size()) {
+            return std::ptr::null_mut();
+        }
+        unsafe { System.alloc_zeroed(l) }
+    }
+    unsafe fn dealloc(&self, p: *mut u8, l: Layout) {
+        LIVE.fetch_sub(l.size(), Relaxed);
+        unsafe { System.dealloc(p, l) }
+    }
+    unsafe fn realloc(&self, p: *mut u8, l: Layout, new_size: usize) -> *mut u8 {
+        // the old block may live until the new one is filled
+        if !note_alloc(new_size) {
+            return std::ptr::null_mut();
+        }
+        let q = unsafe { System.realloc(p, l, new_size) };
+        LIVE.fetch_sub(l.size(), Relaxed);
+        q
+    }
+}
+
+#[global_allocator]
+static GLOBAL: Counting = Counting;
+
+struct CapGuard;
+impl Drop for CapGuard {
+    fn drop(&mut self) {
+        CAP.store(usize::MAX, Relaxed);
+        CUR_FN.store(0, Relaxed);
+    }
+}
+
+/// run one library call; returns its result and {"req": largest single request, "peak": peak additional live bytes}
+fn measure<T>(func: usize, f: impl FnOnce() -> T) -> (T, Value) {
+    let _g = CapGuard;
+    let base = LIVE.load(Relaxed);
+    PEAK.store(base, Relaxed);
+    MAXREQ.store(0, Relaxed);
+    CUR_FN.store(func, Relaxed);
+    CAP.store(MEM_CAP, Relaxed);
+    let r = f();
+    CAP.store(usize::MAX, Relaxed);
+    let mem = json!({"req": MAXREQ.load(Relaxed), "peak": PEAK.load(Relaxed).saturating_sub(base)});
+    (r, mem)
+}
+
+/// could a decoder that trusts a length prefix be led to request more than MEM_CAP?  (any position
+/// holding a complete 5- or 6-byte prefix announcing 2^30 bytes or more)
+fn risky(b: &[u8]) -> bool {
+    for i in 0..b.len() {
+        let k = (!b[i]).leading_zeros() as usize;
+        if (5..=6).contains(&k) && i + k <= b.len() {
+            let mut size: u64 = (b[i] & (0xff >> k)) as u64;
+            for x in &b[i + 1..i + k] {
+                size = (size << 8) | *x as u64;
+            }
+            if size >= (MEM_CAP as u64) - 64 {
+                return true;
+            }
+        }
+    }
+    false
+}
+
+/// one byte-string event; inputs that could make a faulty decoder ask for more than MEM_CAP are run in a
+/// child process, whose death becomes a "crash" event naming the function that asked
+fn guarded(kind: &str, b: &[u8], th: bool) -> Value {
+    if !risky(b) {
+        return byte_event(kind, b, th);
+    }
+    let exe = std::env::current_exe().expect("current_exe");
+    let o = std::process::Command::new(exe)
+        .args(["child", "--kind", kind, "--hex", &hex::encode(b), "--th", if th { "1" } else { "0" }])
+        .output()
+        .expect("spawn child");
+    let stdout = String::from_utf8_lossy(&o.stdout);
+    if o.status.success() {
+        if let Some(v) = stdout.lines().find_map(|l| serde_json::from_str::<Value>(l).ok()) {
+            return v;
+        }
+    }
+    let stderr = String::from_utf8_lossy(&o.stderr).to_string();
+    let func = stderr
+        .lines()
+        .find(|l| l.starts_with("OVERALLOC "))
+        .and_then(|l| l.split_whitespace().nth(1))
+        .unwrap_or("unknown")
+        .to_string();
+    let tail: String = stderr.chars().rev().take(300).collect::<Vec<_>>().into_iter().rev().collect();
+    json!({"ev": "crash", "of": kind, "b": bytes_json(b), "th": th, "fn": func, "overalloc": stderr.contains("OVERALLOC "), "msg": tail})
+}
+
+fn byte_event(kind: &str, b: &[u8], th: bool) -> Value {
+    match kind {
+        "de" => ev_de(b),
+        "triples" => ev_triples(b, th),
+        "hash" => ev_hash(b),
+        "canon" => ev_canon(b),
+        "lenb" => ev_lenb(b),
+        _ => ev_reser(b),
+    }
+}
+
+// ---------------------------------------------------------------------------
 // trees
 
 /// materialise a JSON tree (nested or flat form).  `share`: equal sub-trees become the same
@@ -201,22 +379,25 @@ fn ev_limit(t: &Value, func: &str, share: bool) -> Value {
 
 fn ev_de(b: &[u8]) -> Value {
     let r = catch(|| {
-        let s = {
+        // the Allocator reserves about 1 MiB when it is created: measured from after it exists
+        let (s, mem_s) = {
             let mut a = Allocator::new();
             let mut c = Cursor::new(b);
-            match node_from_stream(&mut a, &mut c) {
+            let (r, mem) = measure(1, || node_from_stream(&mut a, &mut c));
+            (match r {
                 Ok(n) => json!({"ok": true, "used": c.position(), "t": tree_json(&a, n)}),
                 Err(_) => json!({"ok": false}),
-            }
+            }, mem)
         };
-        let nb = {
+        let (nb, mem_nb) = {
             let mut a = Allocator::new();
-            match node_from_bytes(&mut a, b) {
+            let (r, mem) = measure(2, || node_from_bytes(&mut a, b));
+            (match r {
                 Ok(n) => json!({"ok": true, "t": tree_json(&a, n)}),
                 Err(_) => json!({"ok": false}),
-            }
+            }, mem)
         };
-        json!({"s": s, "nb": nb})
+        json!({"s": s, "nb": nb, "mem_s": mem_s, "mem_nb": mem_nb})
     });
     with_panic(json!({"ev": "de", "b": bytes_json(b)}), r)
 }
@@ -224,7 +405,8 @@ fn ev_de(b: &[u8]) -> Value {
 fn ev_triples(b: &[u8], th: bool) -> Value {
     let r = catch(|| {
         let mut c = Cursor::new(b);
-        match parse_triples(&mut c, th) {
+        let (r, mem) = measure(3, || parse_triples(&mut c, th));
+        let mut v = match r {
             Ok((tr, hs)) => {
                 let mut v = json!({"ok": true, "used": c.position(),
                                    "tr": tr.iter().map(triple_json).collect::<Vec<_>>()});
@@ -235,7 +417,9 @@ fn ev_triples(b: &[u8], th: bool) -> Value {
                 v
             }
             Err(_) => json!({"ok": false}),
-        }
+        };
+        v["mem"] = mem;
+        v
     });
     with_panic(json!({"ev": "triples", "b": bytes_json(b), "th": th}), r)
 }
@@ -243,23 +427,31 @@ fn ev_triples(b: &[u8], th: bool) -> Value {
 fn ev_hash(b: &[u8]) -> Value {
     let r = catch(|| {
         let mut c = Cursor::new(b);
-        match tree_hash_from_stream(&mut c) {
+        let (r, mem) = measure(4, || tree_hash_from_stream(&mut c));
+        let mut v = match r {
             Ok(h) => json!({"ok": true, "used": c.position(), "h": bytes_json(&h)}),
             Err(_) => json!({"ok": false}),
-        }
+        };
+        v["mem"] = mem;
+        v
     });
     with_panic(json!({"ev": "hash", "b": bytes_json(b)}), r)
 }
 
 fn ev_canon(b: &[u8]) -> Value {
-    let r = catch(|| json!({"v": is_canonical_serialization(b)}));
+    let r = catch(|| {
+        let (v, mem) = measure(5, || is_canonical_serialization(b));
+        json!({"v": v, "mem": mem})
+    });
     with_panic(json!({"ev": "canon", "b": bytes_json(b)}), r)
 }
 
 fn ev_lenb(b: &[u8]) -> Value {
     let r = catch(|| {
-        json!({"trusted": lenres(serialized_length_from_bytes_trusted(b)),
-               "untrusted": lenres(serialized_length_from_bytes(b))})
+        let (t, mem_t) = measure(6, || serialized_length_from_bytes_trusted(b));
+        // the validating length creates its own Allocator (which reserves about 1 MiB)
+        let (u, mem_u) = measure(7, || serialized_length_from_bytes(b));
+        json!({"trusted": lenres(t), "untrusted": lenres(u), "mem_t": mem_t, "mem_u": mem_u})
     });
     with_panic(json!({"ev": "lenb", "b": bytes_json(b)}), r)
 }
@@ -775,7 +967,7 @@ fn gen_bytes(r: &mut Rng) -> Vec<u8> {
             b.truncate(k);
             b
         }
-        85..=94 => {
+        85..=91 => {
             // trailing bytes
             let t = small(r);
             let mut b = gen_encode(r, &t, 0);
@@ -784,11 +976,22 @@ fn gen_bytes(r: &mut Rng) -> Vec<u8> {
             b
         }
         _ => {
-            // a length prefix announcing far more than there is
-            let mut b = vec![*r.pick(&[0xbfu8, 0xdf, 0xef, 0xf7, 0xfb, 0xfc, 0xfd, 0xfe])];
-            let extra = r.below(8) as usize;
-            b.extend(if r.chance(1, 2) { vec![0xff; extra] } else { r.bytes(extra) });
-            b
+            // hostile: a complete length prefix of every class announcing (nearly) the most it can, with a
+            // body that is missing or far too short - alone, or inside nested cons cells
+            let pre: &[u8] = *r.pick(&[
+                &[0xbf][..], &[0xdf, 0xff], &[0xef, 0xff, 0xff], &[0xf7, 0xff, 0xff, 0xff], &[0xf8, 0x40, 0x00, 0x00, 0x00],
+                &[0xfb, 0xff, 0xff, 0xff, 0xff], &[0xfc, 0x03, 0xff, 0xff, 0xff, 0xff], &[0xfc, 0x00, 0x7f, 0xff, 0xff, 0xff],
+                &[0xf0, 0x10, 0x00, 0x00], &[0xe0, 0x20, 0x00], &[0xfd, 0xff, 0xff, 0xff, 0xff, 0xff], &[0xfe, 0xff, 0xff, 0xff, 0xff, 0xff, 0xff],
+            ]);
+            let mut h = pre.to_vec();
+            let extra = r.below(6) as usize;
+            h.extend(if r.chance(1, 2) { vec![0u8; extra] } else { r.bytes(extra) });
+            match r.below(5) {
+                0 | 1 => h,
+                2 => [&[0xff][..], &h[..]].concat(),
+                3 => [&[0xff, 0x80][..], &h[..]].concat(),
+                _ => [&[0xff, 0xff, 0x01, 0x81, 0x80][..], &h[..]].concat(),
+            }
         }
     }
 }
@@ -796,19 +999,22 @@ fn gen_bytes(r: &mut Rng) -> Vec<u8> {
 fn bytes_events(out: &mut Out, b: &[u8], mix: &str, r: &mut Rng) {
     match mix {
         "C16" => {
-            out.emit(&ev_de(b));
-            out.emit(&ev_triples(b, true));
-            if r.chance(1, 4) {
-                out.emit(&ev_triples(b, false));
+            out.emit(&guarded("de", b, false));
+            out.emit(&guarded("triples", b, true));
+            if r.chance(1, 4) || risky(b) {
+                out.emit(&guarded("triples", b, false));
             }
-            out.emit(&ev_hash(b));
-            out.emit(&ev_canon(b));
+            out.emit(&guarded("hash", b, false));
+            out.emit(&guarded("canon", b, false));
+            if r.chance(1, 3) || risky(b) {
+                out.emit(&guarded("lenb", b, false));
+            }
         }
         _ => {
-            out.emit(&ev_de(b));
-            out.emit(&ev_canon(b));
-            out.emit(&ev_reser(b));
-            out.emit(&ev_lenb(b));
+            out.emit(&guarded("de", b, false));
+            out.emit(&guarded("canon", b, false));
+            out.emit(&guarded("reser", b, false));
+            out.emit(&guarded("lenb", b, false));
         }
     }
 }
@@ -946,8 +1152,27 @@ fn main() {
                     "bytes" => {
                         let b = json_bytes(&c["b"]);
                         let ok = c["ok"].as_bool().unwrap();
-                        let d = ev_de(&b);
-                        let de_ok = d.get("panic").is_none()
+                        // C16 "without over-allocating": bound from the specification (SerClassic!MemBoundFor)
+                        let mb = c["mb"].as_u64().unwrap_or(u64::MAX);
+                        let mbu = c["mbu"].as_u64().unwrap_or(u64::MAX);
+                        let memchk = |e: &Value, key: &str, bound: u64, name: &'static str, what: &mut Vec<&'static str>| {
+                            if e["ev"] == "crash" {
+                                what.push(if e["overalloc"] == true { "crash-overalloc" } else { "crash" });
+                                return;
+                            }
+                            if let Some(m) = e.get(key) {
+                                if m["req"].as_u64().unwrap_or(0) > bound || m["peak"].as_u64().unwrap_or(0) > bound {
+                                    what.push(name);
+                                }
+                            }
+                        };
+                        let d = guarded("de", &b, false);
+                        if d["ev"] == "crash" {
+                            obs["crash_de"] = d.clone();
+                        }
+                        memchk(&d, "mem_s", mb, "mem:node_from_stream", &mut what);
+                        memchk(&d, "mem_nb", mb, "mem:node_from_bytes", &mut what);
+                        let de_ok = d["ev"] == "crash" || d.get("panic").is_none()
                             && d["s"]["ok"] == ok
                             && d["nb"]["ok"] == ok
                             && (!ok
@@ -959,8 +1184,12 @@ fn main() {
                             obs["de"] = d;
                         }
                         for th in [true, false] {
-                            let t = ev_triples(&b, th);
-                            let t_ok = t.get("panic").is_none()
+                            let t = guarded("triples", &b, th);
+                        if t["ev"] == "crash" {
+                            obs["crash_triples"] = t.clone();
+                        }
+                            memchk(&t, "mem", mb, "mem:parse_triples", &mut what);
+                            let t_ok = t["ev"] == "crash" || t.get("panic").is_none()
                                 && t["ok"] == ok
                                 && (!ok || (t["used"] == c["used"] && t["tr"] == c["tr"] && (!th || t["h"] == c["h"])));
                             if !t_ok {
@@ -968,20 +1197,33 @@ fn main() {
                                 obs["triples"] = t;
                             }
                         }
-                        let h = ev_hash(&b);
-                        let h_ok = h.get("panic").is_none() && h["ok"] == ok && (!ok || (h["used"] == c["used"] && h["h"] == c["h"]));
+                        let h = guarded("hash", &b, false);
+                        if h["ev"] == "crash" {
+                            obs["crash_hash"] = h.clone();
+                        }
+                        memchk(&h, "mem", mb, "mem:tree_hash_from_stream", &mut what);
+                        let h_ok = h["ev"] == "crash" || h.get("panic").is_none() && h["ok"] == ok && (!ok || (h["used"] == c["used"] && h["h"] == c["h"]));
                         if !h_ok {
                             what.push("hash");
                             obs["hash"] = h;
                         }
-                        let cn = ev_canon(&b);
-                        if cn.get("panic").is_some() || cn["v"] != c["canon"] {
+                        let cn = guarded("canon", &b, false);
+                        if cn["ev"] == "crash" {
+                            obs["crash_canon"] = cn.clone();
+                        }
+                        memchk(&cn, "mem", mb, "mem:is_canonical_serialization", &mut what);
+                        if cn["ev"] != "crash" && (cn.get("panic").is_some() || cn["v"] != c["canon"]) {
                             what.push("canon");
                             obs["canon"] = cn;
                         }
-                        let l = ev_lenb(&b);
+                        let l = guarded("lenb", &b, false);
+                        if l["ev"] == "crash" {
+                            obs["crash_lenb"] = l.clone();
+                        }
+                        memchk(&l, "mem_t", mb, "mem:serialized_length_from_bytes_trusted", &mut what);
+                        memchk(&l, "mem_u", mbu, "mem:serialized_length_from_bytes", &mut what);
                         let lt_ok = c["lt_ok"].as_bool().unwrap();
-                        let l_ok = l.get("panic").is_none()
+                        let l_ok = l["ev"] == "crash" || l.get("panic").is_none()
                             && l["trusted"]["ok"] == lt_ok
                             && (!lt_ok || l["trusted"]["v"] == c["lt"])
                             && (c["fe"] == true || (l["untrusted"]["ok"] == ok && (!ok || l["untrusted"]["v"] == c["used"])));
@@ -1105,12 +1347,9 @@ fn main() {
                         "ser" => Some(ev_ser(&e["t"], share)),
                         "len" => Some(ev_len(&e["t"], share)),
                         "limit" => Some(ev_limit(&e["t"], e["fn"].as_str().unwrap(), share)),
-                        "de" => Some(ev_de(&b)),
-                        "triples" => Some(ev_triples(&b, e["th"].as_bool().unwrap_or(true))),
-                        "hash" => Some(ev_hash(&b)),
-                        "canon" => Some(ev_canon(&b)),
-                        "lenb" => Some(ev_lenb(&b)),
-                        "reser" => Some(ev_reser(&b)),
+                        "de" | "hash" | "canon" | "lenb" | "reser" => Some(guarded(ev, &b, false)),
+                        "triples" => Some(guarded(ev, &b, e["th"].as_bool().unwrap_or(true))),
+                        "crash" => Some(guarded(e["of"].as_str().unwrap_or("de"), &b, e["th"].as_bool().unwrap_or(true))),
                         "big" => ev_big(&json_bytes(&e["p"]), le_n(&e["have"]), e["fill"].as_u64().unwrap() as u8, &caps),
                         "bigser" => ev_bigser(le_n(&e["n"]), e["fill"].as_u64().unwrap() as u8, e["via"].as_str().unwrap(), &caps),
                         "rep" => Some(ev_rep(e["shape"].as_str().unwrap(), e["n"].as_u64().unwrap(), &e["item"], &e["tail"])),
@@ -1210,6 +1449,12 @@ fn main() {
             if let Some(sp) = arg(&args, "--stats") {
                 std::fs::write(sp, json!({"lines": out.lines, "hwm_kb": hwm_kb()}).to_string()).unwrap();
             }
+        }
+        "child" => {
+            // one byte-string event in a process of its own (see `guarded`)
+            let b = hex::decode(arg(&args, "--hex").unwrap_or_default()).expect("hex");
+            let kind = arg(&args, "--kind").unwrap();
+            out.emit(&byte_event(&kind, &b, arg_u64(&args, "--th", 1) == 1));
         }
         "probe-pairs" => {
             // not part of any check: the classic decoders on an input with more pairs than the
